@@ -7,7 +7,8 @@ RULE = ("random operation sequences (length <= 12 quick / <= 40 thorough) on rea
         "insert/remove), shift, scale, *=, /=, normalize, convert, degree setter, |=, &=, split, copy; arguments drawn from a valid and a "
         "malformed stream (absent knots, end knots, outside nodes, excess multiplicity, non-positive scale, different intervals); plus a "
         "malformed constructor stream (unsorted, unclamped, tail after the clamped block, constant, too short, non-numeric, NaN).  "
-        "Non-trivial: a sequence with at least one interior knot or degree >= 2; distinct = distinct (start vector, op list).")
+        "Non-trivial: a sequence with at least one interior knot or degree >= 2; distinct = distinct (start vector, op list)."
+        " Also: affine maps of float vectors at the edge of the float range (1e16, 5e-324, overflow, NaN, inf, complex).")
 EXPLANATION = ("L2: after every step the observable tuple (elements, degree, npts, knots, limits, span/mult/valid on probe nodes) is "
                "compared with the Lean state machine; L3: the well-formedness predicate and the span/mult specifications are evaluated "
                "directly on the real object after every step, and the object is re-read after every raising call (must be unchanged).")
